@@ -17,6 +17,11 @@ def genFacts : Facts :=
     iterateOnlyNexts := Generated.c17IterateOnlyNexts
     glomitReversed := Generated.c17GlomitReversed
     callbacks := Generated.c17Callbacks
-    callbackWrites := Generated.c17CallbackWrites }
+    callbackWrites := Generated.c17CallbackWrites
+    callbackArgs := Generated.c17CallbackArgs
+    iterateExtra := Generated.c17IterateExtra
+    addOpTypeSelf := Generated.c17AddOpTypeSelf
+    allIsPipeList := Generated.c17AllIsPipeList
+    firstShape := Generated.c17FirstShape }
 
 end Glom.C17
